@@ -730,7 +730,15 @@ func (sa *Application) UpdateAllocationResources(alloc *Allocation, isQuotaPreem
 	}
 	delta.Prune()
 
-	if existing.IsAllocated() {
+	if _, booked := sa.allocations[existing.GetAllocationKey()]; existing.IsAllocated() && !booked {
+		// replacement for a placeholder that has not been confirmed yet: it is not part of any total until the
+		// swap is confirmed, the totals are then adjusted using the size the allocation has at that point
+		log.Log(log.SchedApplication).Info("updated resources of an unconfirmed placeholder replacement",
+			zap.String("appID", sa.ApplicationID),
+			zap.String("alloc", existing.GetAllocationKey()),
+			zap.Stringer("existingResources", existingResource),
+			zap.Stringer("updatedResources", newResource))
+	} else if existing.IsAllocated() {
 		// update allocated resources: placeholders are tracked in their own total
 		if existing.IsPlaceholder() {
 			sa.allocatedPlaceholder = resources.Add(sa.allocatedPlaceholder, delta)
